@@ -393,6 +393,32 @@ LITERAL_TYPES = ["Literal[0, 1, 2]", "Literal[0, 1]", "Literal[True, 2]", "Liter
                  "int | None", "bool | None", "Literal[0, 1] | None", "E | None", "object", "float", "Literal[E.a, E.b]", "IE | int"]
 
 
+# size tests with the constant on either side, container tests (a str on the right is substring containment),
+# class tests against tuples of classes, and flag enums (members combine: != one member does not leave the others)
+SIZED_TYPES = ["tuple[int] | tuple[int, int] | tuple[int, int, int]", "tuple[int, ...]", "tuple[int, Unpack[tuple[str, ...]]]", "list[int]", "str",
+               'Literal["", "a", "ab"]', "tuple[()] | tuple[int]", "dict[str, int]", "bytes", "tuple[int, str] | tuple[int]", "list[int] | tuple[int, int]"]
+SIZED_TESTS = [f"len(x) {op} {n}" for op in ("==", "!=", "<", "<=", ">", ">=") for n in (0, 1, 2, 3)] + \
+    [f"{n} {op} len(x)" for op in ("==", "!=", "<", "<=", ">", ">=") for n in (0, 1, 2, 3)] + \
+    ["len(x)", "not len(x)", "0 < len(x) < 3", "len(x) in (1, 2)", "not (len(x) > 1)", "len(x) == 1 or len(x) == 3"]
+CONTAINER_TYPES = ["str", 'Literal["a", "b", "ab", "c"]', "int", "Literal[1, 2, 3]", "int | str", "object", "E", "Perm", "str | None", "bytes"]
+CONTAINER_TESTS = ['x in "abc"', 'x not in "abc"', 'x in ("a", "b")', "x in {1, 2}", 'x not in ["a", 1]', 'x in frozenset({1, "a"})', 'x in {"a": 1, "b": 2}',
+                   "x in (E.a, E.b)", "x not in (Perm.R, Perm.W)", "x in (Perm.R,)", "x != Perm.R", "x == Perm.R", "x is Perm.R", "x is not Perm.W",
+                   'x in b"ab"', "x in (1, True)", "x in [None, 1]", "x in ()"]
+CLASS_TYPES = ["type", "type[object]", "type[A]", "type[int] | type[str]", "type[int | str]", "type[A] | None", "type[B] | type[C]"]
+CLASS_TESTS = ["issubclass(x, int)", "issubclass(x, (int, str))", "issubclass(x, A)", "issubclass(x, (A, C))", "issubclass(x, B)", "x is int", "x == A",
+               "x is not B", "issubclass(x, (B,))", "not issubclass(x, (int, A))"]
+FAMILIES = [(LITERAL_TYPES, None), (SIZED_TYPES, SIZED_TESTS), (CONTAINER_TYPES, CONTAINER_TESTS), (CLASS_TYPES, CLASS_TESTS)]
+
+
+def family_cases():
+    """The three catalogues above, exhaustively (type x test x if/else)."""
+    for types, tests in FAMILIES[1:]:
+        for t in types:
+            for c in tests:
+                cond = c if "None" not in t or "is None" in c else f"x is not None and {c}"
+                yield t, "ifelse", cond
+
+
 @st.composite
 def case_strategy(draw):
     if draw(st.integers(0, 5)) == 0:
@@ -411,6 +437,7 @@ def case_strategy(draw):
 def shards(tier, seed):
     n = 16
     out = [{"mode": "program", "index": i, "modules": 30 if tier == "quick" else 600} for i in range(n)]
+    out += [{"mode": "families", "index": i, "of": 4} for i in range(4)]
     out += [{"mode": "api", "index": i, "of": 4} for i in range(4)]
     out.append({"mode": "tr"})
     return out
@@ -419,6 +446,13 @@ def shards(tier, seed):
 def run_shard(spec):
     col = runner.Collector(spec)
     checker = sut.new_checker()
+    if spec["mode"] == "families":
+        cases = [c for k, c in enumerate(family_cases()) if k % spec["of"] == spec["index"]]
+        for k in range(0, len(cases), 120):
+            for key, what, case in judge(cases[k:k + 120], checker, col):
+                col.fail(key, what, {"tsrc": case[0], "form": case[1], "cond": case[2]})
+        col.extra["exhaustive_families"] = "sized types x size tests (constant on either side), container tests, class tests: every (type, test) pair as if/else"
+        return col.result()
     if spec["mode"] == "tr":
         cases = [("Tr", "ifelse", "x"), ("Tr", "ifelse", "not x"), ("Tr", "early-return", "x"), ("Tr", "assert", "x"),
                  ("Tr | None", "ifelse", "x"), ("Optional[Tr]", "ifelse", "not x")]
